@@ -10,7 +10,7 @@ for d in sorted(glob.glob('seeded/C*-*/meta.json')):
     diff = open(os.path.join(os.path.dirname(d), 'patch.diff')).read()
     files = sorted(set(re.findall(r'^\+\+\+ b/(\S+)', diff, re.M)))
     m['files'] = files; m['breaks_property'] = m['property']
-    m['round'] = {'A': 1, 'B': 1, 'C': 2, 'D': 2, 'E': 3, 'F': 3, 'G': 4, 'H': 4, 'I': 5, 'J': 5, 'K': 6, 'L': 6, 'M': 7, 'N': 7, 'O': 8, 'P': 8}.get(sid[-1], 0)
+    m['round'] = {'A': 1, 'B': 1, 'C': 2, 'D': 2, 'E': 3, 'F': 3, 'G': 4, 'H': 4, 'I': 5, 'J': 5, 'K': 6, 'L': 6, 'M': 7, 'N': 7, 'O': 8, 'P': 8, 'Q': 9}.get(sid[-1], 0)
     json.dump(m, open(d, 'w'), indent=1)
     own = ', '.join(m.get('caught_by', [])) or 'not caught'
     others = sorted(c for c, rc in matrix.get(sid, {}).items() if rc == 1 and c != m['property'])
